@@ -95,6 +95,19 @@ CHECKS['C05'] = (
     'analytic discretisation bounds stated in the check source.',
     'DESIGN.md 3/C05')
 
+CHECKS['C02'] = (
+    'deviation-bounded (quick) / full-product (thorough) enumeration of designed micro networks x every simple '
+    'transceiver-to-transceiver path, real request.propagate recorded per element',
+    'Over site graph, per-link chain (plain, multi-span, fused, Raman fibre, split fibre, user amplifiers, 500 m fibre), '
+    'equipment library (test, example, OpenROADM v5), simulation parameters (Raman off/on x GN / GGN approx / GGN spectrally '
+    'separated / numerical Raman), power or gain mode, ROADM policy and launched spectrum, every designed network is '
+    'propagated over every simple path; at every element crossing and for every channel ASE/S, NLI/S and their sum must not '
+    'decrease, ROADM/Fused/transceiver must leave the shares bitwise unchanged, an amplifier must keep NLI/S and a plain fibre '
+    'ASE/S. Single Raman/plain fibres are also crossed with 186-203 THz combs (channels below and above the pumps).',
+    'Observation by wrapping element __call__ in the harness; a RamanFiber with the Raman flag off and a one-channel comb with '
+    'the GGN methods are outside the supported configurations and skipped (counted).',
+    'DESIGN.md 3/C02')
+
 ALL = [f'C{i:02d}' for i in range(1, 21)]
 NOT_BUILT_REASON = 'check not built yet in this round (planned, see DESIGN.md section 3); not claimed until it runs'
 
